@@ -42,6 +42,9 @@ KEY_POOLS = [
 ]
 
 
+REQUIRED_PROBES = ['history_with_eviction', 'reentrant_on_miss_run']
+
+
 def setup(root):
     L.setup(root)
 
